@@ -40,7 +40,38 @@ def _ws_pattern(lit):
     return r'\s*'.join(re.escape(p) for p in parts) if False else r'\s+'.join(re.escape(p) for p in parts)
 
 
+_ASSERT_RE = re.compile(r'assert!\(\s*((?:.|\n)*?),\s*"(?:[^"\\]|\\.)*"\s*(?:,(?:[^;"]|"(?:[^"\\]|\\.)*")*?)?\)\s*;')
+_ASSERT_EQ_RE = re.compile(r'assert_eq!\(\s*([^,]*?),\s*([^,]*?),\s*"(?:[^"\\]|\\.)*"\s*(?:,(?:[^;"]|"(?:[^"\\]|\\.)*")*?)?\)\s*;')
+
+
+def asserts_to_vassert(text, log, where):
+    n = [0]
+
+    def one(m):
+        n[0] += 1
+        cond = ' '.join(m.group(1).split())
+        if 'buildhasher' in cond:
+            return '/* buildhasher equality check: precondition */'
+        cond = cond.replace(') & (', ') && (').replace('() & (', '() && (')
+        return 'vassert(%s);' % cond
+
+    def two(m):
+        n[0] += 1
+        a, b = ' '.join(m.group(1).split()), ' '.join(m.group(2).split())
+        if 'buildhasher' in a:
+            return '/* buildhasher equality check: precondition */'
+        return 'vassert(%s == %s);' % (a, b)
+    text = _ASSERT_EQ_RE.sub(two, text)
+    text = _ASSERT_RE.sub(one, text)
+    if n[0] == 0:
+        raise AnchorLost('%s: asserts_to_vassert found no assert!/assert_eq! with a message' % where)
+    log.append({'where': where, 'old': 'assert!/assert_eq!(.., "fmt", ..) x%d' % n[0], 'new': 'vassert(cond); (requires cond)', 'count': n[0]})
+    return text
+
+
 def apply_replace(text, count, old, new, log, where):
+    if isinstance(old, tuple) and old[0] == 'asserts':
+        return asserts_to_vassert(text, log, where)
     if isinstance(old, tuple):
         pat = re.compile(old[1])
         found = list(pat.finditer(text))
@@ -188,6 +219,11 @@ def generate(template_path, repo):
                 elif t.startswith('//@loop'):
                     mode = ('loop', int(t.split()[1]))
                     loops[mode[1]] = []
+                elif t.startswith('//@asserts_to_vassert'):
+                    # R8: every panicking `assert!(c, "fmt", ..)` / `assert_eq!(a, b, "fmt", ..)` of the function becomes
+                    # `vassert(c);` / `vassert(a == b);` (a call with `requires c`): the documented parameter ranges must
+                    # imply each check.  Checks comparing BuildHashers (`==` on a generic type) are dropped.
+                    replaces.append(('*', ('asserts',), '', []))
                 elif t.startswith('//@replace_re'):
                     # regex rewrite (python syntax, \\1 back-references); count may be `*` (one or more)
                     m = re.match(r'//@replace_re\s+(\d+|\*)\s*::\s*(.*?)\s*==>\s*(.*)$', t)
